@@ -221,3 +221,35 @@ def load_known():
         return []
     with open(KNOWN) as f:
         return json.load(f).get("findings", [])
+
+
+class Rekeyed:
+    """A view of a Check that files another property's rules under this property's keys: C15 ("loading with the static check
+    equals typing in") depends on the analyzer not refusing what runs, which C06's operand-kind tables decide; the same rule
+    instances are necessary conditions of both properties."""
+
+    def __init__(self, ck, old, new):
+        self._ck, self._old, self._new = ck, old, new
+
+    def _k(self, x):
+        if isinstance(x, str) and (x.startswith(self._old + ":") or x.startswith(self._old + ".")):
+            return self._new + x[len(self._old):]
+        return x
+
+    def ok(self, key, *a, **kw):
+        return self._ck.ok(self._k(key), *a, **kw)
+
+    def bad(self, key, *a, **kw):
+        return self._ck.bad(self._k(key), *a, **kw)
+
+    def require(self, cond, key, *a, **kw):
+        return self._ck.require(cond, self._k(key), *a, **kw)
+
+    def missing(self, key, *a, **kw):
+        return self._ck.missing(self._k(key), *a, **kw)
+
+    def floor(self, name, *a, **kw):
+        return self._ck.floor(self._k(name), *a, **kw)
+
+    def __getattr__(self, n):
+        return getattr(self._ck, n)
